@@ -36,10 +36,25 @@ def _val(v, ctx):
     return v
 
 
+class QuietFlow(bt.Algo):
+    """a user algo booking a capital flow through the public API with update=False (the backtest loop refreshes after the stack)"""
+
+    def __init__(self, amount):
+        super(QuietFlow, self).__init__()
+        self.amount = float(amount)
+
+    def __call__(self, target):
+        target.adjust(self.amount, update=False)
+        return True
+
+
+USER_ALGOS = {"QuietFlow": QuietFlow}
+
+
 def mk_algo(d, ctx):
     if "$run_always" in d:
         return algos.run_always(mk_algo(d["$run_always"], ctx))
-    cls = getattr(algos, d["a"])
+    cls = USER_ALGOS.get(d["a"]) or getattr(algos, d["a"])
     args = [_val(x, ctx) for x in d.get("args", [])]
     kw = {k: _val(x, ctx) for k, x in d.get("kw", {}).items()}
     a = cls(*args, **kw)
@@ -66,7 +81,18 @@ def mk_strategy(node, ctx):
     stack = [mk_algo(a, ctx) for a in node["algos"]]
     if ctx.get("stack_hook"):
         stack = ctx["stack_hook"](stack, node)
-    return Strategy(node["name"], stack, children=mk_children(node.get("children"), ctx))
+    s = Strategy(node["name"], stack, children=mk_children(node.get("children"), ctx))
+    _apply_node_comms(s, node)
+    return s
+
+
+def _apply_node_comms(s, node):
+    """per-definition commission schedules (top-down, because set_commissions recurses into strategy children)"""
+    if node.get("comm"):
+        s.set_commissions(ins.Comm(node["comm"]))      # also for "none": it overrides what a parent pushed down
+    for k in node.get("children") or []:
+        if k["type"] == "strat" and k["name"] in s.children:
+            _apply_node_comms(s.children[k["name"]], k)
 
 
 def frames_of(spec):
@@ -210,6 +236,9 @@ def gen_stack(rng, rs, spec, names, priced, prefix, opts, is_child=False):
         elif r < 0.4:
             st.append({"a": "CapitalFlow", "args": [amt]})
             desc.append("flow")
+        elif r < 0.5 and opts.get("quiet_flows"):
+            spec.setdefault("_tail", []).append({"$run_always": {"a": "QuietFlow", "args": [amt]}})
+            desc.append("quietflow")
     lb = {"$off": {"days": rng.choice([5, 10, 20, 30])}}
     lag = {"$off": {"days": rng.choice([0, 0, 1, 3])}}
     sels = ["all", "these", "hasdata", "momentum", "where", "setstat_n", "regex"]
@@ -320,9 +349,11 @@ def gen_stack(rng, rs, spec, names, priced, prefix, opts, is_child=False):
         st.append({"a": "PTE_Rebalance", "args": [rng.choice([0.01, 0.03, 0.08]), {"$frame": fn}], "kw": {"lookback": {"$off": {"days": 20}}, "lag": lag}})
         st.append({"a": "WeighTarget", "args": [fn]})
         desc.append("pte")
+    tail = spec.pop("_tail", [])
     if rng.random() < 0.8:
         st.append({"a": "Rebalance"})
         desc.append("rebalance")
+        st += tail
     else:
         st.append({"$run_always": {"a": "RebalanceOverTime", "args": [rng.randint(2, 5)]}} if rng.random() < 0.5 else {"a": "RebalanceOverTime", "args": [rng.randint(2, 5)]})
         desc.append("rot")
@@ -422,6 +453,14 @@ def gen(cs, **opts):
             st.insert(0, {"$run_always": {"a": "CapitalFlow", "args": [spec["capital"] * rng.uniform(-0.02, 0.05)]}})
         spec["root"] = {"name": "root", "algos": st, "children": subs + [{"type": "lazy", "name": t} for t in extra_tk]}
         desc["root"] = ["nested", sched["a"], rootw, len(subs), len(extra_tk)]
+    if nested and opts.get("node_comms") and rng.random() < opts["node_comms"]:
+        # no backtest-level commission function: every strategy definition carries its own schedule
+        spec["comm"] = "none"
+        spec["root"]["comm"] = rng.choice(ins.COMM_KINDS)
+        for k in spec["root"]["children"]:
+            if k["type"] == "strat":
+                k["comm"] = rng.choice(ins.COMM_KINDS)
+        desc["node_comms"] = [spec["root"]["comm"]] + [k.get("comm") for k in spec["root"]["children"] if k["type"] == "strat"]
     if rng.random() < opts.get("bidoffer_p", 0.3):
         bo = rs.uniform(0, 0.004, size=prices.shape) * np.nan_to_num(prices, nan=1.0)
         spec["extras"]["bidoffer"] = {"cols": list(tickers), "values": np.where(np.isnan(prices), np.nan, bo).tolist()}
